@@ -4,9 +4,10 @@ Executable model of `psparser.PSStackParser.nextobject` with `pdfparser.PDFStrea
 (`settings.STRICT = False`, the default).
 
 `feed` handles one token exactly like one iteration of the `while not self.results` loop; since
-`PDFStreamParser.flush` moves the whole operand stack to `results` whenever no array /
-dictionary / procedure is open, the objects `nextobject()` returns one by one are the `results` in
-order.  An exception that escapes from `nextobject` ends the sequence (`error`).
+`PDFStreamParser.flush` moves the operand stack to `results` whenever no array / dictionary /
+procedure is open — holding back up to two trailing integers, which may still become the `n g`
+of a top-level `n g R` and are handed out at PSEOF (`finish`) — the objects `nextobject()` returns
+one by one are the `results` in order.  An exception that escapes from `nextobject` ends the sequence (`error`).
 
 Python operations that are not modelled (they need `str()` / `int()` of arbitrary objects) give
 `error "unmodelled"`; the harness does not claim the tie on those inputs: a dictionary key
@@ -29,6 +30,7 @@ inductive SObj where
   | arr (items : List SObj)           -- Python list: array or procedure
   | dict (entries : List (Bytes × SObj))   -- Python dict in insertion order
   | ref (objid : Int)
+  | stream (attrs : List (Bytes × SObj)) (data : Bytes)   -- PDFStream(attrs, rawdata)
   deriving Repr, Inhabited
 
 inductive Ctx where
@@ -110,7 +112,7 @@ def doKeyword (st : PState) (name : Bytes) : PState :=
   if name == kwR then
     -- (_, _object_id), _ = self.pop(2)
     let n := st.curstack.length
-    if n < 2 then { st with curstack := [], error := some "ValueError" } else
+    if n < 2 then st else                       -- `if len(self.curstack) >= 2:` — otherwise nothing happens
     let st' := { st with curstack := st.curstack.take (n - 2) }
     match st.curstack.drop (n - 2) with
     | [.int v, _] => push st' (.ref v)
@@ -122,8 +124,57 @@ def doKeyword (st : PState) (name : Bytes) : PState :=
   else if name == kwObj || name == kwEndobj then st
   else push st (.kwd name)
 
-/-- One iteration of the loop of `nextobject` for one token. -/
-def feed (st : PState) (tok : Token) : PState :=
+def kwXref : Bytes := [120, 114, 101, 102]
+def kwStartxref : Bytes := [115, 116, 97, 114, 116, 120, 114, 101, 102]
+def kwStream : Bytes := [115, 116, 114, 101, 97, 109]
+
+/-- `self.add_results(*self.pop(k))` -/
+def popToResults (st : PState) (k : Nat) : PState :=
+  let n := st.curstack.length
+  { st with curstack := st.curstack.take (n - k), results := st.results ++ st.curstack.drop (n - k) }
+
+/-- `PDFParser.do_keyword` (the reader behind `PDFDocument.getobj`).  The `stream` keyword needs the
+    bytes of the file (`Model/ObjParser.lean` handles it before calling this function). -/
+def doKeywordP (st : PState) (name : Bytes) : PState :=
+  if name == kwXref || name == kwStartxref then popToResults st 1
+  else if name == kwEndobj then popToResults st 4
+  else if name == kwNull then push st .null
+  else if name == kwR then
+    let n := st.curstack.length
+    if n < 2 then st else
+    let st' := { st with curstack := st.curstack.take (n - 2) }
+    match st.curstack.drop (n - 2) with
+    | [.int v, _] => push st' (.ref v)
+    | [.bool b, _] => push st' (.ref (if b then 1 else 0))
+    | [.real _, _] => { st' with error := some "unmodelled" }
+    | [.str _, _] => { st' with error := some "unmodelled" }
+    | _ => st'
+  else if name == kwStream then { st with error := some "unmodelled" }
+  else push st (.kwd name)
+
+/-- The two subclasses of PSStackParser that read PDF objects differ in `do_keyword` and in `flush`. -/
+structure Dialect where
+  doKeyword : PState → Bytes → PState
+  flushes : Bool        -- `flush()` moves the operand stack to `results` whenever no container is open
+
+def streamDialect : Dialect := ⟨doKeyword, true⟩      -- PDFStreamParser
+def objDialect : Dialect := ⟨doKeywordP, false⟩        -- PDFParser (PSStackParser.flush does nothing)
+
+/-- how many trailing integers `PDFStreamParser.flush` holds back (at most two; `type(x) is int`, so
+    booleans do not count): they may be the `n g` of a top-level `n g R` -/
+def heldCount (cs : List SObj) : Nat :=
+  match cs.reverse with
+  | .int _ :: .int _ :: _ => 2
+  | .int _ :: _ => 1
+  | _ => 0
+
+/-- `PDFStreamParser.flush`: everything but the held-back integers goes to `results` -/
+def flushHold (st : PState) : PState :=
+  let k := st.curstack.length - heldCount st.curstack
+  { st with results := st.results ++ st.curstack.take k, curstack := st.curstack.drop k }
+
+/-- One iteration of the loop of `PSStackParser.nextobject` for one token. -/
+def feedWith (D : Dialect) (st : PState) (tok : Token) : PState :=
   if st.error.isSome then st else
   let st1 : PState :=
     match tok with
@@ -154,15 +205,64 @@ def feed (st : PState) (tok : Token) : PState :=
         match endType st .p with
         | some (objs, st') => push st' (.arr objs)
         | none => st
-      else doKeyword st name
+      else D.doKeyword st name
   if st1.error.isSome then st1
-  else if st1.context.isEmpty then { st1 with results := st1.results ++ st1.curstack, curstack := [] }
+  else if st1.context.isEmpty && D.flushes then flushHold st1
   else st1
 
-def feedAll (st : PState) (toks : List Token) : PState := toks.foldl feed st
+def feedAllWith (D : Dialect) (st : PState) (toks : List Token) : PState := toks.foldl (feedWith D) st
+
+/-- PDFStreamParser -/
+def feed (st : PState) (tok : Token) : PState := feedWith streamDialect st tok
+def feedAll (st : PState) (toks : List Token) : PState := feedAllWith streamDialect st toks
+
+/-- `PDFStreamParser.nextobject` at PSEOF: integers held back by `flush` were objects after all
+    (unless a container is still open or an exception ended the sequence before). -/
+def finish (st : PState) : PState :=
+  if st.error.isSome || !st.context.isEmpty then st
+  else { st with results := st.results ++ st.curstack, curstack := [] }
 
 /-- Objects `PDFStreamParser(data).nextobject()` returns until PSEOF or an exception. -/
-def objects (toks : List PTok) : PState := feedAll {} (toks.map (·.2))
+def objects (toks : List PTok) : PState := finish (feedAll {} (toks.map (·.2)))
+
+/-! ### `PDFDocument._getobj_parse` / `getobj` for an object found through a cross-reference table -/
+
+/-- `PSStackParser.nextobject` of PDFParser: feed tokens until `results` is not empty; the first result
+    is returned.  `none` = the tokens ran out (PSEOF). -/
+def nextobjectP : PState → List Token → Option PState
+  | st, [] => if st.error.isSome || !st.results.isEmpty then some st else none
+  | st, t :: r =>
+    if st.error.isSome || !st.results.isEmpty then some st
+    else nextobjectP (feedWith objDialect st t) r
+
+inductive GetObj where
+  | ok (o : SObj)
+  | notFound            -- PSEOF / PDFSyntaxError inside getobj: the next xref is tried, then PDFObjectNotFound
+  | raised (e : String)
+  deriving Repr
+
+/-- `getobj(objid)` on the tokens found at the object's offset: `objid gen obj <object> endobj`.
+    A first token that is not the integer `objid` (pdfminer then searches for the next `obj`
+    keyword) is not modelled. -/
+def getobjToks (objid : Int) (toks : List Token) : GetObj :=
+  match toks with
+  | t1 :: _ :: t3 :: rest =>
+    match t1 with
+    | .int n =>
+      if n != objid then .raised "unmodelled"
+      else if t3 != Token.kwd kwObj then .notFound
+      else
+        match nextobjectP {} rest with
+        | none => .notFound
+        | some st =>
+          match st.error with
+          | some e => .raised e
+          | none =>
+            match st.results with
+            | o :: _ => .ok o
+            | [] => .notFound
+    | _ => .raised "unmodelled"
+  | _ => .notFound
 
 /-! ### canonical text form (same as `Syntax.Obj.show`; reals as exact `p/q` of the decimal text) -/
 
@@ -201,6 +301,7 @@ def SObj.show : SObj → String
   | .arr items => "[ " ++ showItems items ++ "]"
   | .dict es => "<< " ++ String.join ((showEntries es).map (fun e => "n:" ++ hexOrDash e.1 ++ " " ++ e.2 ++ " ")) ++ ">>"
   | .ref n => "R:" ++ toString n
+  | .stream es d => "S:<< " ++ String.join ((showEntries es).map (fun e => "n:" ++ hexOrDash e.1 ++ " " ++ e.2 ++ " ")) ++ ">> " ++ hexOrDash d
 
 def showItems : List SObj → String
   | [] => ""
@@ -210,6 +311,11 @@ def showEntries : List (Bytes × SObj) → List (Bytes × String)
   | [] => []
   | (k, v) :: r => insertSorted (k, v.show) (showEntries r)
 end
+
+def GetObj.show : GetObj → String
+  | .ok o => o.show
+  | .notFound => "!PDFObjectNotFound"
+  | .raised e => "!" ++ e
 
 def showState (st : PState) : String :=
   let objs := st.results.map SObj.show
